@@ -557,17 +557,23 @@ class QuicConnection:
                     (tls.Epoch.HANDSHAKE, QuicPacketType.HANDSHAKE),
                 ]
             epoch_packet_types.append((tls.Epoch.ONE_RTT, QuicPacketType.ONE_RTT))
-            for epoch, packet_type in epoch_packet_types:
-                crypto = self._cryptos[epoch]
-                if crypto.send.is_valid():
-                    builder.start_packet(packet_type, crypto)
-                    self._write_connection_close_frame(
-                        builder=builder,
-                        epoch=epoch,
-                        error_code=self._close_event.error_code,
-                        frame_type=self._close_event.frame_type,
-                        reason_phrase=self._close_event.reason_phrase,
-                    )
+            try:
+                for epoch, packet_type in epoch_packet_types:
+                    crypto = self._cryptos[epoch]
+                    if crypto.send.is_valid():
+                        builder.start_packet(packet_type, crypto)
+                        self._write_connection_close_frame(
+                            builder=builder,
+                            epoch=epoch,
+                            error_code=self._close_event.error_code,
+                            frame_type=self._close_event.frame_type,
+                            reason_phrase=self._close_event.reason_phrase,
+                        )
+            except QuicPacketBuilderStop:
+                # There is no room for a closing packet, for instance because
+                # a Retry token fills the whole Initial packet header: enter
+                # the closing period without it.
+                pass
             self._logger.info(
                 "Connection close sent (code 0x%X, reason %s)",
                 self._close_event.error_code,
